@@ -24,11 +24,12 @@ Lemma c17_reparse_step_frame : forall ts op ts' j,
   nth_error ts' j = nth_error ts j.
 Proof.
   intros ts op ts' j H Hn Hj.
-  destruct op as [h s|k o|k t1]; cbn [XmlReparse.rstep] in H; cbn [rop_tree] in Hn.
+  destruct op as [h s|k o|k t1|h s]; cbn [XmlReparse.rstep] in H; cbn [rop_tree] in Hn.
   - injection H as <-. destruct (parser h s) as [t|]; [|reflexivity].
     rewrite nth_error_snoc. destruct (Nat.eqb_spec (length ts) j); [lia|reflexivity].
   - destruct (update_nth_spec _ _ _ _ _ H) as (x & y & _ & _ & _ & H4 & _). apply H4. congruence.
   - destruct (update_nth_spec _ _ _ _ _ H) as (x & y & _ & _ & _ & H4 & _). apply H4. congruence.
+  - injection H as <-. reflexivity.
 Qed.
 
 (* a parse hands out the parser's reading of the text as a NEW last tree and keeps every earlier one as it was *)
@@ -67,10 +68,11 @@ Lemma rstep_length : forall ts op ts',
   rstep ts op = Some ts' ->
   length ts' = match op with RParse h s => match parser h s with Some _ => S (length ts) | None => length ts end | _ => length ts end.
 Proof.
-  intros ts op ts' H. destruct op as [h s|k o|k t1]; cbn [XmlReparse.rstep] in H.
+  intros ts op ts' H. destruct op as [h s|k o|k t1|h s]; cbn [XmlReparse.rstep] in H.
   - injection H as <-. destruct (parser h s); [|reflexivity]. rewrite app_length. cbn [length]. lia.
   - destruct (update_nth_spec _ _ _ _ _ H) as (x & y & _ & _ & _ & _ & H5). exact H5.
   - destruct (update_nth_spec _ _ _ _ _ H) as (x & y & _ & _ & _ & _ & H5). exact H5.
+  - injection H as <-. reflexivity.
 Qed.
 
 (* ---------- every tree is its own text's reading and the calls that were given that tree ---------- *)
@@ -82,7 +84,7 @@ Proof.
   - injection H as <-. reflexivity.
   - destruct (rstep ts op) as [ts1|] eqn:E; [|discriminate].
     rewrite (IH _ _ j H). clear IH H.
-    destruct op as [h s|k o|k t1]; cbn [XmlReparse.rstep] in E; cbn [XmlReparseSpec.rown].
+    destruct op as [h s|k o|k t1|h s]; cbn [XmlReparse.rstep] in E; cbn [XmlReparseSpec.rown]; [| | |injection E as <-; reflexivity].
     + injection E as <-. destruct (parser h s) as [t|] eqn:P; [|reflexivity].
       rewrite app_length, fold_left_app. cbn [length].
       replace (length ts + 1)%nat with (S (length ts)) by lia. f_equal.
@@ -116,7 +118,7 @@ Proof.
   - inversion F as [|? ? Hop Fr]; subst.
     destruct (rstep ts op) as [ts2|] eqn:E; [|discriminate].
     rewrite (IH _ _ Fr H). rewrite (rstep_length _ _ _ E).
-    destruct op; [discriminate Hop|reflexivity|reflexivity].
+    destruct op; [discriminate Hop|reflexivity|reflexivity|reflexivity].
 Qed.
 
 (* parse s, do anything to the tree handed out (helpers, the caller's own edits), parse s again: the second tree
@@ -136,6 +138,52 @@ Proof.
   destruct ts1 as [|t0 [|x r]]; try discriminate L.
   exists t0. split; [reflexivity|]. exact I0.
 Qed.
+(* ---------- a call that raises leaves nothing behind ---------- *)
+Notation rraises := (rraises parser).
+
+Lemma c17_reparse_raise_step : forall ts op, rraises op = true -> rstep ts op = Some ts.
+Proof.
+  intros ts op H. destruct op as [h s|k o|k t1|h s]; cbn [XmlReparse.rraises] in H; cbn [XmlReparse.rstep]; try discriminate H; [|reflexivity].
+  destruct (parser h s); [discriminate H|reflexivity].
+Qed.
+
+(* the calls that raise can be struck out of a history: the process ends with the very same trees *)
+Lemma c17_reparse_raise_erase : forall ops ts,
+  rrun ts ops = rrun ts (filter (fun op => negb (rraises op)) ops).
+Proof.
+  induction ops as [|op r IH]; intros ts; cbn [filter XmlReparse.rrun]; [reflexivity|].
+  destruct (rraises op) eqn:R; cbn [negb].
+  - rewrite (c17_reparse_raise_step ts op R). apply IH.
+  - cbn [XmlReparse.rrun]. destruct (rstep ts op); [apply IH|reflexivity].
+Qed.
+
+(* ... so after any number of calls that raised - for whatever reason, through whichever parser variant, on texts of
+   any length - the next parse hands out what it hands out in a process that has parsed nothing yet *)
+Lemma c17_reparse_after_raises : forall bad h s,
+  Forall (fun op => rraises op = true) bad ->
+  rrun [] (bad ++ [RParse h s]) = rrun [] [RParse h s].
+Proof.
+  intros bad h s F. rewrite rrun_app.
+  assert (E : rrun [] bad = Some []).
+  { clear h s. induction F as [|op r Hop Fr IH]; cbn [XmlReparse.rrun]; [reflexivity|].
+    rewrite (c17_reparse_raise_step [] op Hop). exact IH. }
+  rewrite E. reflexivity.
+Qed.
+
+(* and in the middle of any history: what the later calls make of the trees does not depend on the calls that raised *)
+Lemma c17_reparse_raises_between : forall ops1 bad ops2 ts,
+  Forall (fun op => rraises op = true) bad ->
+  rrun ts (ops1 ++ bad ++ ops2) = rrun ts (ops1 ++ ops2).
+Proof.
+  intros ops1 bad ops2 ts F. rewrite !rrun_app.
+  destruct (rrun ts ops1) as [ts1|]; [|reflexivity].
+  rewrite rrun_app.
+  assert (E : rrun ts1 bad = Some ts1).
+  { induction F as [|op r Hop Fr IH]; cbn [XmlReparse.rrun]; [reflexivity|].
+    rewrite (c17_reparse_raise_step ts1 op Hop). exact IH. }
+  rewrite E. reflexivity.
+Qed.
+
 (* the trees-after-every-call trace the runner reports is the run *)
 Lemma c17_reparse_trace : forall ops ts ts',
   rrun ts ops = Some ts' -> last (rtrace ts ops) ts = ts' /\ length (rtrace ts ops) = length ops.
